@@ -131,6 +131,15 @@ def ignore_fields_for_comparison(ignored_fields: Iterable[str]):
         set_ignored_fields_for_comparison(original_ignored_fields)
 
 
+def _hashable(value):
+    """Return ``value`` with every (nested) list and dict converted to a tuple, so it can be hashed."""
+    if isinstance(value, (list, tuple)):
+        return tuple(_hashable(v) for v in value)
+    if isinstance(value, dict):
+        return tuple((k, _hashable(v)) for k, v in value.items())
+    return value
+
+
 class FieldType:
     def _typename(self):
         t = type(self)
@@ -203,26 +212,7 @@ class Record:
 
     def __hash__(self) -> int:
         desc_identifier, values = self._pack(excluded_fields=IGNORE_FIELDS_FOR_COMPARISON)
-        if not any((isinstance(value, list) for value in values)):
-            return hash((desc_identifier, values))
-
-        # Lists have to be converted to tuples to be able to hash them
-        record_values = []
-        for value in values:
-            if not isinstance(value, list):
-                record_values.append(value)
-                continue
-            list_values = []
-            for list_value in value:
-                if isinstance(list_value, dict):
-                    # List values that are dicts must be converted to tuples
-                    dict_as_tuple = tuple(list_value.items())
-                    list_values.append(dict_as_tuple)
-                else:
-                    list_values.append(list_value)
-            record_values.append(tuple(list_values))
-
-        return hash((desc_identifier, tuple(record_values)))
+        return hash((desc_identifier, _hashable(values)))
 
     def __repr__(self):
         return "<{} {}>".format(
